@@ -165,6 +165,11 @@ def run(ctx: Ctx):
     ctx.ob("C20.b", "RewardScaler.__call__:eps", bool(okf), fc.loc, "scaling factor = std + eps", construct="RewardScaler.__call__:eps")
     ctx.ob("C20.b", "RewardScaler.__call__:norm", norm_ok, fc.loc, "'norm' returns (scores - mean) / (std + eps)", construct="RewardScaler.__call__:norm")
     ctx.ob("C20.b", "RewardScaler.__call__:scale", scale_ok, fc.loc, "'scale' returns scores / (std + eps)", construct="RewardScaler.__call__:scale")
+    exponential_rules(ctx)
+    warmup_rules(ctx)
+
+
+def exponential_rules(ctx: Ctx):
     # ---------------- ExponentialBaseline
     eb = ctx.repo.get_class(BL, "ExponentialBaseline")
     fe = eb.methods["eval"]
@@ -190,6 +195,9 @@ def run(ctx: Ctx):
     r = fr3.ret
     first = r.items[0] if isinstance(r, vg.Tup) else (r.args[0] if isinstance(r, vg.S) and r.op == "tuple" else None)
     ctx.ob("C20.c", "ExponentialBaseline.eval:returns-stored", first is v1, fe.loc, "the returned baseline is the stored, detached self.v", construct="ExponentialBaseline.eval:return")
+
+
+def warmup_rules(ctx: Ctx):
     # ---------------- WarmupBaseline
     wb = ctx.repo.get_class(BL, "WarmupBaseline")
     fw = wb.methods["eval"]
